@@ -16,7 +16,12 @@ CONFIG = dict(
                "the same operations minus the adds of ids that are live at that moment (zoned_eq_simplespace; the two implementations differ on such an add: "
                "add_live_id_diverges); that with a searcher whose Validate is ANY predicate both spaces report exactly the accepted within-range ids, once "
                "(search_with_validator, simplespace_with_validator), for a searcher object that starts empty (fresh_searcher_exact; a reused FindPlayers-like "
-               "object repeats its earlier ids: searcher_reuse_witness - the repository creates one per query); that the only Init call site (the factory) "
+               "object repeats its earlier ids: searcher_reuse_witness - the repository creates one per query); that a query through "
+               "searchers.FindPlayers (Validate modelled statement by statement: owner, id unknown to the world, dead unit, unit type other than avatar are rejected) "
+               "reports in ANY scene world exactly the within-range live avatars other than the owner, once (findplayers_reports_exactly; the real FindPlayers is "
+               "driven on every run against a stub world through the ops unit / q fp=); that a query leaves nothing behind in either index, so "
+               "every one of n consecutive repetitions of a query reports the same exact set for EVERY n (repeated_query_stable; tied by the ops qn/fqn, which put up to "
+               "131074 queries on one space instance); that the only Init call site (the factory) "
                "satisfies Init's precondition (factory_geometry_ok). The model is tied to the Go code on every run: on the exact stream (quarter-unit "
                "coordinates where float32 is exact) the model must reproduce verbatim the results of ZoneSpace, of a SimpleSpace handed only fresh ids and of a second "
                "SimpleSpace handed every op (its own contract), with an accept-everything searcher and with a searcher that rejects an owner id, on ordinary cases "
@@ -26,8 +31,10 @@ CONFIG = dict(
                "(defect D12, repaired; witness theorem d12_witness) and non-finite inputs are covered by testing only (float stream), where a disagreement "
                "is excused only for an entity whose computed distance is within 2 ulp of the radius or whose position is non-finite, and queries with a "
                "non-finite centre/radius are recorded but not judged (zoned result; SimpleSpace-vs-scan, duplicates, dead ids and rejected owners are judged there too). "
-               "searchers/findplayers.go itself (world lookups: dead units, non-avatars) is not driven: the searcher is modelled as an arbitrary Validate predicate plus an "
-               "append-only result list. Trusted: Lean kernel, harness/driver line protocol and canonicalisation (sorted ids).",
+               "searchers/findplayers.go is driven (NewFindPlayers per query) against a stub of entity.IEntity/IWorld/IBaseUnit that implements only GetId, GetWorld, "
+               "GetEntity, GetComponent(BaseUnit), IsDead, GetUnitType (any other call panics and is reported); an entity WITHOUT a BaseUnit component is not generated "
+               "(the single-value type assertion in Validate panics on a nil component - unreachable as long as every scene entity carries one); searchers.FindNearestEnemy "
+               "is not driven (covered only by the arbitrary-Validate theorem search_with_validator as far as Validate goes; its keep-the-nearest AddCandidate is not modelled). Trusted: Lean kernel, harness/driver line protocol and canonicalisation (sorted ids).",
     lean_targets=["Cell2v.Props.C20", "modeld_c20"],
     driver="modeld_c20",
     driver_root="Cell2v.Driver.C20",
@@ -37,7 +44,8 @@ CONFIG = dict(
                        "zone_clamp_trunc_eq_floor_clamp", "zone_mono", "zone_index_in_bounds", "zone_fix_conservative",
                        "init_geometry_ok", "d12_witness",
                        "simplespace_search_exact", "zoned_eq_simplespace", "add_live_id_diverges", "search_with_validator",
-                       "simplespace_with_validator", "fresh_searcher_exact", "searcher_reuse_witness", "factory_geometry_ok"],
+                       "simplespace_with_validator", "fresh_searcher_exact", "searcher_reuse_witness", "factory_geometry_ok",
+                       "repeated_query_stable", "findplayers_reports_exactly"],
     harness_pkg="./c20",
     # `accept` = the differential check performed by the driver itself: for an exact-stream op the model's observation must EQUAL the
     # implementation's (anything else is rejected); float-stream ops are outside the model (exact arithmetic) and are accepted as they are —
@@ -50,11 +58,15 @@ CONFIG = dict(
                      dict(name="exact", env={"VERIF_N": "600000", "VERIF_STREAM": "x"}, seed_offset=1000, timeout=1500),
                      dict(name="float", env={"VERIF_N": "1500000", "VERIF_STREAM": "f"}, seed_offset=2000, timeout=1500)],
     },
-    trivial=r"^(ok|bad-op|bad-geo|z= b= s=|z= b= s= e=[0-9,]* nf=[01])?$",
+    trivial=r"^(ok|bad-op|bad-geo|z= b= s=( n=[0-9]+ same=[0-9]+)?|z= b= s= e=[0-9,]* nf=[01]( n=[0-9]+ same=[0-9]+)?)?$",
     rule="op lines generated from one PRNG (VERIF_SEED), cases of 20-70 ops after a reset (1 case in 12: a crowd case of 60-400 ops, in either stream: 17-106 "
          "entities packed into one zone, a few elsewhere, queries while it fills, early entities moving, then drained by removals and moves out of the zone down to "
-         "0-8, then re-adds/moves/queries; the slices behind a zone and behind SimpleSpace grow through several capacities and empty again); a quarter of the queries "
-         "use a searcher that rejects an owner id; exact stream: 11 geometries (the space made by factory.CreateZoneSpace() itself, +-30/5, the repo test's, "
+         "0-8, then re-adds/moves/queries; the slices behind a zone and behind SimpleSpace grow through several capacities and empty again); 1 ordinary case in 10 "
+         "is a long-lived space: one op qn/fqn repeats a query n times (n up to 131074) on the same ZoneSpace and SimpleSpaces, n chosen around the widths of 8- and "
+         "16-bit counters (256, 65536, 131072) so that either the ordinary ops that follow straddle query no. 256/65536/131072 of that space or the repetition itself "
+         "crosses it; every repetition's result is compared with the first and the first differing one is reported and judged by the spec monitor; a quarter of the queries "
+         "use a searcher that rejects an owner id, another quarter the real searchers.FindPlayers owned by an id, with `unit` ops (1 in 9 steps) declaring ids dead / "
+         "monster / exit / camera / test / none / unknown to the world / live avatar again; exact stream: 11 geometries (the space made by factory.CreateZoneSpace() itself, +-30/5, the repo test's, "
          "0.25-unit zones, a single zone, zone size 3 and 7 with non-multiple extents, zones larger than the map, a thin strip), ids from a small pool so that "
          "re-adds, moves and removals hit live ids, coordinates grid-aligned / one quarter off a border / on the map bounds / outside / extreme / random, "
          "moves within and across zones, minimal steps (1-2 quarter units) over a border or corner of the entity's zone each followed by a query whose circle holds the "
@@ -64,12 +76,13 @@ CONFIG = dict(
          "distance to a live entity +-3 ulp with the entity on the rim along an axis; non-trivial = a query with a non-empty result",
     trusted_base=[
         "Lean 4.33.0 kernel; axioms of every property theorem audited on each run (allowed: propext, Classical.choice, Quot.sound)",
-        "hand-written model lean/Cell2v/Model/Space.lean (ZoneSpace + Zone, SimpleSpace, searcher with a Validate predicate; exact arithmetic, quarter units) "
+        "hand-written model lean/Cell2v/Model/Space.lean (ZoneSpace + Zone, SimpleSpace, searcher with a Validate predicate, FindPlayers.Validate over a scene world; exact arithmetic, quarter units) "
         "tied to the Go code by the exact stream of this check (harness/c20 + modeld_c20 accept: the three model observations z= b= s= must equal the implementation's)",
         "float32 arithmetic, float-to-int conversion and non-finite values are NOT modelled: tested on the float stream against a brute-force scan "
         "in the harness that uses the same vector.Vector3.Distance",
         "harness canonicalisation (ids sorted, duplicates kept; panics caught by recover and mapped to 'panic'); the harness's ISearcher "
-        "(accepts everything, or everything but one owner id) stands for searchers.FindPlayers / FindNearestEnemy, whose world lookups are not driven",
+        "(accepts everything, or everything but one owner id) stands for an arbitrary searcher; searchers.FindPlayers itself is driven against the harness's stub "
+        "world (stubEntity/stubWorld/stubUnit: ids never described are live avatars); FindNearestEnemy is not driven",
         "define.MaxWidth = 30 / zone size 5 of the factory are tied behaviourally only (reset kind=x default: model constant Geo.factory vs factory.CreateZoneSpace())",
     ],
     assumptions=[
@@ -88,6 +101,8 @@ CONFIG = dict(
         "(zoned_eq_simplespace) - while a second SimpleSpace (s=) receives every op and is checked against its own upsert contract",
         "Init is called with begin <= end and a positive zone size (init_geometry_ok); true of the only call site in the repository (factory_geometry_ok, "
         "driven through factory.CreateZoneSpace()); other geometries (make with a negative length / zero zones: panics) are rejected by the harness before Init",
+        "queries are read-only: the model's query returns no state (mirrors the code: SearchCircleTargets assigns no field of ZoneSpace/Zone/ZoneEntityInfo/"
+        "SimpleSpace); tied behaviourally by qn/fqn for up to 131074 consecutive queries per space instance (beyond that, e.g. a 32-bit stamp wrapping, nothing is observed)",
         "searcher objects are created per query (space/utils: NewFindPlayers / NewFindNearestEnemy per call); a reused FindPlayers keeps its earlier results (searcher_reuse_witness)",
     ],
 )
